@@ -187,6 +187,63 @@ def surrogate_cases(rng, tree, n):
     return out
 
 
+def collect_numbers(j, fl, it):
+    """bit patterns of all floats and all integers inside a protocol value / tree"""
+    if isinstance(j, dict):
+        if set(j) == {'f'}:
+            fl.add(j['f'])
+            return
+        for v in j.values():
+            collect_numbers(v, fl, it)
+    elif isinstance(j, list):
+        for v in j:
+            collect_numbers(v, fl, it)
+    elif isinstance(j, int) and not isinstance(j, bool):
+        it.add(j)
+
+
+def law_test(ctx, res, cases):
+    """evaluates every law of LawfulFloatOps with the Float instance on tuples of the doubles / integers of this run"""
+    fl, it = set(), set()
+    for c, _ in cases:
+        collect_numbers(c['tree'], fl, it)
+        collect_numbers(c['cand'], fl, it)
+        collect_numbers(c['prev'], fl, it)
+    for x in gen.FLOAT_CAT + gen.SCALES + [gen.NAN, gen.INF, -gen.INF, -0.0, 5e-324, -5e-324, 2.2250738585072014e-308]:
+        fl.add(dtcodec.f2bits(x))
+    it.update(gen.INT_CAT + [2 ** 70, -2 ** 70, 10 ** 400, 2 ** 53 + 1, 2 ** 1024 - 2 ** 970, 2 ** 1024 - 2 ** 970 - 1])
+    fl, it = sorted(fl), sorted(it)
+    n = ctx.budget(3000, 40000)
+    rng = ctx.rng
+    tuples = []
+    for _ in range(n):
+        x, y = rng.choice(fl), rng.choice(fl)
+        r = rng.random()
+        z = rng.choice(fl) if r < 0.5 else dtcodec.f2bits(rng.choice(gen.SCALES + [1e-5, 5e-324, 1e300]))
+        if rng.random() < 0.3:
+            y = x if rng.random() < 0.3 else dtcodec.f2bits(__import__('math').nextafter(dtcodec.bits2f(x), rng.choice([-gen.INF, gen.INF])))
+        tuples.append([x, y, z, rng.choice(it), rng.choice(it)])
+    ans = ctx.driver.batch([{'p': 'C01', 'k': 'laws', 'tuples': tuples[i:i + 2000]} for i in range(0, len(tuples), 2000)])
+    fails = {}
+    k = 0
+    for a in ans:
+        if 'driver_error' in a:
+            raise RuntimeError(f'driver error {a}')
+        for names in a['fail']:
+            for name in names:
+                fails.setdefault(name, tuples[k])
+            k += 1
+    res.count('float-law re-test (a test): tuples', len(tuples))
+    res.count('float-law re-test (a test): distinct doubles', len(fl))
+    res.count('float-law re-test (a test): laws violated', len(fails))
+    res.notes.append(f'float-law re-test (a test, not a proof): the {27} laws of LawfulFloatOps evaluated with the Float instance on '
+                     f'{len(tuples)} tuples over the {len(fl)} distinct doubles and {len(it)} integers of this run: '
+                     f'{len(fails)} laws violated')
+    for name, t in fails.items():
+        res.disagreements.append({'case': {'law': name, 'tuple': t}, 'model': 'law assumed for binary64',
+                                  'impl': 'fails on this tuple (bit patterns x, y, z; integers i, j)'})
+
+
 def load_corpus(ctx):
     cases = []
     cdir = os.path.join(ctx.verif, 'corpus', 'C01')
@@ -408,6 +465,9 @@ def run(ctx):
                 res.violations.append({'sig': signature(clause, small, simpl),
                                        'what': f'{clause}: ' + describe(small, simpl),
                                        'case': small, 'detail': {'clause': clause, 'original': c if small is not c else None}})
+
+    # ---------- re-test of the float laws on the doubles drawn (a test of the trusted base, not a proof) ----------
+    law_test(ctx, res, cases)
 
     # ---------- totality-only stream (inputs the model cannot represent) ----------
     reqs, meta = [], []
